@@ -81,6 +81,335 @@ theorem interface_agrees_checked (cfg : Cfg) (pos : Pos) (n : Node) (h1 : saneB 
     ∃ i s o, (parseWorkflowCallEvent cfg pos n).1 = .call i s o pos ∧ fromYaml cfg n = .ok (fromAst i s o) :=
   interface_agrees cfg pos n (saneB_sound 3 n h1) (noPlaceholderB_sound n h2) hc
 
+/-! ### from the `workflow_call:` node to the value of `on:` -/
+
+theorem fromEvents_append_none (a b : List Event) (h : fromEvents a = none) : fromEvents (a ++ b) = fromEvents b := by
+  induction a with
+  | nil => rfl
+  | cons e rest ih =>
+    simp only [fromEvents] at h
+    simp only [List.cons_append, fromEvents]
+    cases he : fromEvent e with
+    | some m => simp [he] at h
+    | none => simp only [he] at h ⊢; exact ih h
+
+theorem fromEvents_append_some (a b : List Event) (m : Meta) (h : fromEvents a = some m) : fromEvents (a ++ b) = some m := by
+  induction a with
+  | nil => simp [fromEvents] at h
+  | cons e rest ih =>
+    simp only [fromEvents] at h
+    simp only [List.cons_append, fromEvents]
+    cases he : fromEvent e with
+    | some m' => simp only [he] at h ⊢; exact h
+    | none => simp only [he] at h ⊢; exact ih h
+
+/-- one iteration of the loop over the keys of `on:` appends at most one event; it is a `workflow_call` event only for
+the key `workflow_call` -/
+theorem eventOfKey_shape (cfg : Cfg) (st : List Event) (kv : KV) :
+    ∃ es, (eventOfKey cfg st kv).1 = st ++ es ∧
+      (kv.id = "workflow_call" → es = [(parseWorkflowCallEvent cfg kv.key.pos kv.val).1] ∧
+        (eventOfKey cfg st kv).2 = (parseWorkflowCallEvent cfg kv.key.pos kv.val).2) ∧
+      (kv.id ≠ "workflow_call" → fromEvents es = none) := by
+  simp only [eventOfKey]
+  split
+  · -- schedule
+    rename_i heq
+    have hne : kv.id ≠ "workflow_call" := by rw [heq]; decide
+    cases h : (parseScheduleEvent cfg kv.key.pos kv.val).1 with
+    | none => exact ⟨[], by simp, fun e => absurd e hne, fun _ => rfl⟩
+    | some ev =>
+      refine ⟨[ev], by simp, fun e => absurd e hne, fun _ => ?_⟩
+      simp only [parseScheduleEvent] at h
+      split at h
+      · simp at h
+      · simp only [Option.some.injEq] at h; subst h; rfl
+  · rename_i heq
+    have hne : kv.id ≠ "workflow_call" := by rw [heq]; decide
+    exact ⟨[_], rfl, fun e => absurd e hne, fun _ => rfl⟩
+  · rename_i heq
+    have hne : kv.id ≠ "workflow_call" := by rw [heq]; decide
+    exact ⟨[_], rfl, fun e => absurd e hne, fun _ => rfl⟩
+  · rename_i heq
+    exact ⟨[_], rfl, fun _ => ⟨rfl, rfl⟩, fun h => absurd heq h⟩
+  · rename_i h1 h2 h3 h4
+    exact ⟨[_], rfl, fun e => absurd e h4, fun _ => rfl⟩
+
+theorem fromEvents_loop_some (cfg : Cfg) (kvs : List KV) : ∀ (st : List Event) (m : Meta),
+    fromEvents st = some m → fromEvents (loop (eventOfKey cfg) st kvs).1 = some m := by
+  induction kvs with
+  | nil => intro st m h; exact h
+  | cons kv rest ih =>
+    intro st m h
+    rw [loop_cons]
+    obtain ⟨es, he, _, _⟩ := eventOfKey_shape cfg st kv
+    exact ih _ m (by rw [he]; exact fromEvents_append_some st es m h)
+
+/-- a key of `on:` that is `workflow_call` up to letter case is spelled exactly so -/
+def ExactCallKey (cfg : Cfg) (l : List (Node × Node)) : Prop :=
+  ∀ q ∈ l, cfg.lower q.1.value = "workflow_call" → q.1.value = "workflow_call"
+
+theorem events_sync (cfg : Cfg) (what : String) (hlow : cfg.lower "workflow_call" = "workflow_call") :
+    ∀ (l : List (Node × Node)) (seen : List (String × Pos)) (st : List Event),
+    (mappingLoop cfg what true l seen).2 = [] →
+    (loop (eventOfKey cfg) st (mappingLoop cfg what true l seen).1).2 = [] →
+    fromEvents st = none → ExactCallKey cfg l →
+    (∀ q ∈ l, q.1.value = "workflow_call" → saneB 3 q.2 = true ∧ noPlaceholderB q.2 = true) →
+    ∀ m, fromEvents (loop (eventOfKey cfg) st (mappingLoop cfg what true l seen).1).1 = some m →
+      ∃ v, findCallKey cfg l = some v ∧ fromYaml cfg v = .ok m := by
+  intro l
+  induction l with
+  | nil =>
+    intro seen st _ _ hst _ _ m hm
+    simp only [mappingLoop, loop_nil] at hm
+    rw [hst] at hm; cases hm
+  | cons q rest ih =>
+    obtain ⟨k, v⟩ := q
+    intro seen st hml hl hst hx hs m hm
+    obtain ⟨_, _, _, hkvs, hr⟩ := mappingLoop_clean_cons cfg what true k v rest seen hml
+    simp only [idOf, if_true] at hkvs hr
+    rw [hkvs, loop_cons] at hl hm
+    obtain ⟨hl1, hl2⟩ := nil_of_append_nil hl
+    obtain ⟨es, he, hcall, hother⟩ := eventOfKey_shape cfg st ⟨k.value, newString k, v⟩
+    by_cases hk : k.value = "workflow_call"
+    · obtain ⟨hes, herr⟩ := hcall hk
+      have hclean : (parseWorkflowCallEvent cfg (newString k).pos v).2 = [] := by rw [← herr]; exact hl1
+      obtain ⟨hsane, hnp⟩ := hs (k, v) (by simp) hk
+      obtain ⟨i, s, o, hev, hy⟩ := interface_agrees_checked cfg (newString k).pos v hsane hnp hclean
+      have hst' : fromEvents (eventOfKey cfg st ⟨k.value, newString k, v⟩).1 = some (fromAst i s o) := by
+        rw [he, fromEvents_append_none st es hst, hes]
+        simp only [fromEvents]
+        rw [hev]; rfl
+      rw [fromEvents_loop_some cfg _ _ _ hst'] at hm
+      cases hm
+      refine ⟨v, ?_, hy⟩
+      simp [findCallKey, hk, hlow]
+    · have hst' : fromEvents (eventOfKey cfg st ⟨k.value, newString k, v⟩).1 = none := by
+        rw [he, fromEvents_append_none st es hst]; exact hother hk
+      have hnl : cfg.lower k.value ≠ "workflow_call" := fun e => hk (hx (k, v) (by simp) e)
+      obtain ⟨v', hf, hy⟩ := ih _ _ hr hl2 hst' (fun q hq => hx q (List.mem_cons_of_mem _ hq))
+        (fun q hq => hs q (List.mem_cons_of_mem _ hq)) m hm
+      exact ⟨v', by simp [findCallKey, hnl, hf], hy⟩
+
+/-- **the two derivations agree on the value of `on:`** (mapping form): if the parser accepts `on:` without a diagnostic
+and the AST has a `workflow_call` event, reading `on:` the way the metadata reader does succeeds with the same interface -/
+theorem on_interface_agrees (cfg : Cfg) (pos : Pos) (on : Node) (hk : on.kind = .mapping)
+    (hlow : cfg.lower "workflow_call" = "workflow_call")
+    (hc : (parseEvents cfg pos on).2 = [])
+    (hx : ExactCallKey cfg (pairs on.content))
+    (hs : ∀ q ∈ pairs on.content, q.1.value = "workflow_call" → saneB 3 q.2 = true ∧ noPlaceholderB q.2 = true)
+    (m : Meta) (hm : fromEvents ((parseEvents cfg pos on).1.getD []) = some m) :
+    fromOn cfg on = .ok m := by
+  simp only [parseEvents, hk, parseSectionMapping] at hc hm
+  obtain ⟨hc1, hc2⟩ := nil_of_append_nil hc
+  have hnn : on.isNull = false := by simp [Node.isNull, hk]
+  simp only [parseMapping, hnn, hk] at hc1 hc2 hm
+  simp only [Bool.not_false, Bool.true_and, ne_eq, not_true_eq_false, decide_false, Bool.false_eq_true, if_false,
+    Bool.and_false] at hc1 hc2 hm
+  obtain ⟨hc1a, _⟩ := nil_of_append_nil hc1
+  simp only [Option.getD_some] at hm
+  obtain ⟨v, hf, hy⟩ := events_sync cfg _ hlow (pairs on.content) [] [] hc1a hc2 rfl hx hs m hm
+  simp [fromOn, hk, hf, hy]
+
+
+/-! ### the scalar and sequence forms of `on:` -/
+
+theorem eventsOfSeq_call : ∀ (l : List Node) (m : Meta), (eventsOfSeq l).2 = [] → fromEvents (eventsOfSeq l).1 = some m →
+    m = {} ∧ ∃ c ∈ l, c.value = "workflow_call" := by
+  intro l
+  induction l with
+  | nil => intro m _ h; simp [eventsOfSeq, fromEvents] at h
+  | cons c cs ih =>
+    intro m hc hm
+    simp only [eventsOfSeq] at hc hm
+    split at hc
+    · simp at hc
+    · simp at hc
+    · rename_i heq
+      simp only [heq] at hm
+      obtain ⟨_, h2⟩ := nil_of_append_nil hc
+      simp only [fromEvents, fromEvent] at hm
+      obtain ⟨hm1, c', hc', hv⟩ := ih m h2 hm
+      exact ⟨hm1, c', List.mem_cons_of_mem _ hc', hv⟩
+    · rename_i heq
+      simp only [heq] at hm
+      obtain ⟨h1, _⟩ := nil_of_append_nil hc
+      obtain ⟨_, _, hs⟩ := parseString_clean c h1
+      simp only [fromEvents, fromEvent, Option.some.injEq] at hm
+      rw [hs] at heq
+      exact ⟨by rw [← hm]; rfl, c, by simp, heq⟩
+    · rename_i h1 h2 h3 h4
+      obtain ⟨_, hc2⟩ := nil_of_append_nil hc
+      have : fromEvents (eventsOfSeq cs).1 = some m := by
+        revert hm
+        split <;> simp_all [fromEvents, fromEvent]
+      obtain ⟨hm1, c', hc', hv⟩ := ih m hc2 this
+      exact ⟨hm1, c', List.mem_cons_of_mem _ hc', hv⟩
+
+/-- what is asked of the value of `on:` when it is a mapping -/
+def OnOk (cfg : Cfg) (on : Node) : Prop :=
+  ExactCallKey cfg (pairs on.content) ∧
+  ∀ q ∈ pairs on.content, q.1.value = "workflow_call" → saneB 3 q.2 = true ∧ noPlaceholderB q.2 = true
+
+/-- all three forms of `on:` -/
+theorem on_interface_agrees' (cfg : Cfg) (pos : Pos) (on : Node)
+    (hlow : cfg.lower "workflow_call" = "workflow_call")
+    (hc : (parseEvents cfg pos on).2 = []) (hok : OnOk cfg on)
+    (m : Meta) (hm : fromEvents ((parseEvents cfg pos on).1.getD []) = some m) :
+    fromOn cfg on = .ok m := by
+  cases hk : on.kind with
+  | mapping => exact on_interface_agrees cfg pos on hk hlow hc hok.1 hok.2 m hm
+  | scalar =>
+    simp only [parseEvents, hk] at hm
+    by_cases hv : on.value = "workflow_call"
+    · simp only [hv, Option.getD_some, fromEvents, fromEvent, Option.some.injEq] at hm
+      simp only [fromOn, hk, hv, hlow, if_true]
+      rw [← hm]; rfl
+    · exfalso
+      revert hm
+      split
+      · simp [fromEvents, fromEvent]
+      · simp [fromEvents, fromEvent]
+      · simp [fromEvents, fromEvent]
+      · rename_i heq; exact absurd heq hv
+      · split <;> simp [fromEvents, fromEvent]
+  | sequence =>
+    simp only [parseEvents, hk] at hm hc
+    obtain ⟨_, hc2⟩ := nil_of_append_nil hc
+    simp only [Option.getD_some] at hm
+    obtain ⟨hm1, c, hcm, hv⟩ := eventsOfSeq_call on.content m hc2 hm
+    have : (on.content.any fun c => cfg.lower c.value = "workflow_call") = true := by
+      rw [List.any_eq_true]
+      exact ⟨c, hcm, by simp [hv, hlow]⟩
+    simp [fromOn, hk, this, hm1]
+  | document => simp [parseEvents, hk, fromEvents] at hm
+  | alias => simp [parseEvents, hk, fromEvents] at hm
+
+
+/-! ### the whole document -/
+
+def setOn (st : Option Node) (name : String) (v : Node) : D (Option Node) :=
+  if name = "on" then .ok (some v) else .ok st
+
+def DocRel (cfg : Cfg) (_seen : List (String × Pos)) (w : Workflow) (sy : Option Node) : Prop :=
+  match sy with
+  | none => w.on = none
+  | some on => ∃ pos, w.on = (parseEvents cfg pos on).1 ∧ (parseEvents cfg pos on).2 = [] ∧ OnOk cfg on
+
+theorem doc_step (cfg : Cfg) (seen : List (String × Pos)) (w : Workflow) (sy : Option Node) (k v : Node)
+    (hrel : DocRel cfg seen w sy) (_hk : k.kind = .scalar) (_hls : lookupSeen k.value seen = none)
+    (hp : k.value = "on" → OnOk cfg v)
+    (hc : (workflowKey cfg w ⟨k.value, newString k, v⟩).2 = []) :
+    k.value ∈ workflowKeys ∧
+    (k.value ∈ ["on"] → ∃ sy', setOn sy k.value v = .ok sy' ∧
+        DocRel cfg (seen ++ [(k.value, k.pos)]) (workflowKey cfg w ⟨k.value, newString k, v⟩).1 sy') ∧
+    (k.value ∉ ["on"] → DocRel cfg (seen ++ [(k.value, k.pos)]) (workflowKey cfg w ⟨k.value, newString k, v⟩).1 sy) := by
+  by_cases hon : k.value = "on"
+  · simp only [workflowKey, hon] at hc ⊢
+    refine ⟨by simp [workflowKeys], fun _ => ⟨some v, by simp [setOn], ?_⟩, fun h => absurd (by simp) h⟩
+    exact ⟨_, rfl, hc, hp hon⟩
+  · have keep : (workflowKey cfg w ⟨k.value, newString k, v⟩).1.on = w.on := by
+      simp only [workflowKey]
+      split <;> first | rfl | (rename_i heq; exact absurd heq hon)
+    have hmem : k.value ∈ workflowKeys := by
+      by_cases hmem : k.value ∈ workflowKeys
+      · exact hmem
+      · exfalso
+        simp only [workflowKeys, List.mem_cons, List.not_mem_nil, or_false, not_or] at hmem
+        obtain ⟨h1, h2, h3, h4, h5, h6, h7, h8⟩ := hmem
+        simp only [workflowKey] at hc
+        simp at hc
+    refine ⟨hmem, fun h => absurd (by simpa using h) hon, fun _ => ?_⟩
+    cases sy with
+    | none => simp only [DocRel] at hrel ⊢; rw [keep]; exact hrel
+    | some on =>
+      simp only [DocRel] at hrel ⊢
+      obtain ⟨pos, h1, h2, h3⟩ := hrel
+      exact ⟨pos, by rw [keep]; exact h1, h2, h3⟩
+
+theorem fixDocPos_content (doc : Node) : (fixDocPos doc).content = doc.content := by
+  cases doc; rfl
+
+/-- **C10, the two derivations of a reusable workflow's interface, for a whole file**: if the parser accepts the document
+without a diagnostic and its AST has a `workflow_call` event — so that linting this file stores the interface built from
+the AST — then reading the same document the way `parseReusableWorkflowMetadata` does succeeds and yields the same
+interface. Hypotheses besides yaml.v3's guarantees: a key of `on:` that is `workflow_call` up to letter case is spelled
+exactly so, and no `required:` in the section is a string. -/
+theorem document_interface_agrees (cfg : Cfg) (doc root : Node) (rest : List Node) (hd : doc.content = root :: rest)
+    (hlow : cfg.lower "workflow_call" = "workflow_call")
+    (hc : (parse cfg doc).2 = [])
+    (hkeys : ∀ q ∈ pairs root.content, saneNodeB q.1 = true)
+    (hon : ∀ q ∈ pairs root.content, q.1.value = "on" → OnOk cfg q.2)
+    (m : Meta) (hm : fromDocAst cfg doc = some m) :
+    fromDoc cfg doc = .ok m := by
+  have hfix : (fixDocPos doc).content = root :: rest := by rw [fixDocPos_content, hd]
+  simp only [fromDocAst, parse, hfix] at hm
+  simp only [parse, hfix] at hc
+  obtain ⟨hc12, _⟩ := nil_of_append_nil hc
+  obtain ⟨hc12, _⟩ := nil_of_append_nil hc12
+  obtain ⟨hpm, hl⟩ := nil_of_append_nil hc12
+  -- the root is a mapping
+  have hmap : root.kind = .mapping := by
+    simp only [parseMapping] at hpm
+    by_cases hn : root.isNull = true
+    · simp [hn] at hpm
+    · by_cases hk : root.kind = .mapping
+      · exact hk
+      · simp [hn, hk] at hpm
+  have hnn : root.isNull = false := by simp [Node.isNull, hmap]
+  have hm1 : (parseMapping cfg "workflow" root false true).1 = (mappingLoop cfg "workflow" true (pairs root.content) []).1 := by
+    simp [parseMapping, hnn, hmap]
+  have hm2 : (mappingLoop cfg "workflow" true (pairs root.content) []).2 = [] := by
+    simp only [parseMapping, hnn, hmap] at hpm
+    simp only [Bool.not_false, Bool.true_and, ne_eq, not_true_eq_false, decide_false, Bool.false_eq_true, if_false,
+      Bool.and_false] at hpm
+    exact (nil_of_append_nil hpm).1
+  rw [hm1] at hl hm
+  have hsync := struct_sync cfg "workflow" ["on"] workflowKeys (workflowKey cfg) setOn (DocRel cfg) (fun k v => k.value = "on" → OnOk cfg v)
+    (by intro a ha
+        simp only [workflowKeys, List.mem_cons, List.not_mem_nil, or_false] at ha
+        rcases ha with rfl | rfl | rfl | rfl | rfl | rfl | rfl | rfl <;> simp [nullWords])
+    (doc_step cfg) (pairs root.content) [] [] {} none hm2 hl
+    (fun q hq => ⟨saneNodeB_sound _ (hkeys q hq), hon q hq⟩) (by simp) (by simp [DocRel])
+  obtain ⟨sy', hdec, seen', hrel⟩ := hsync
+  have hnd := (clean_noDup cfg _ (pairs root.content) [] hm2).1
+  have hdecode : structDecode ["on"] setOn none root = .ok sy' := by
+    simp [structDecode, hmap, hnd, hdec]
+  cases sy' with
+  | none =>
+    simp only [DocRel] at hrel
+    rw [hrel] at hm
+    simp [fromEvents] at hm
+  | some on =>
+    simp only [DocRel] at hrel
+    obtain ⟨pos, h1, h2, h3⟩ := hrel
+    rw [h1] at hm
+    have hfd : fromDoc cfg doc = fromOn cfg on := by
+      simp only [fromDoc, hd]
+      have : (fun (st : Option Node) name v => if name = "on" then Except.ok (some v) else Except.ok st) = setOn := rfl
+      rw [this, hdecode]
+    rw [hfd]
+    exact on_interface_agrees' cfg pos on hlow h2 h3 m hm
+
+
+/-! ### the hypotheses of the document-level theorem as a computable test -/
+
+theorem onOkB_sound (cfg : Cfg) (on : Node) (h : onOkB cfg on = true) : OnOk cfg on := by
+  simp only [onOkB, List.all_eq_true, Bool.and_eq_true, Bool.or_eq_true, bne_iff_ne, ne_eq, beq_iff_eq] at h
+  refine ⟨fun q hq hl => (h q hq).1.resolve_left (fun c => c hl), fun q hq hv => ?_⟩
+  exact (h q hq).2.resolve_left (fun c => c hv)
+
+theorem document_interface_agrees_checked (cfg : Cfg) (doc : Node)
+    (hlow : cfg.lower "workflow_call" = "workflow_call") (hh : docHypB cfg doc = true)
+    (hc : (parse cfg doc).2 = []) (m : Meta) (hm : fromDocAst cfg doc = some m) :
+    fromDoc cfg doc = .ok m := by
+  cases hd : doc.content with
+  | nil => simp [docHypB, hd] at hh
+  | cons root rest =>
+    simp only [docHypB, hd, List.all_eq_true, Bool.and_eq_true, Bool.or_eq_true, bne_iff_ne, ne_eq] at hh
+    exact document_interface_agrees cfg doc root rest hd hlow hc (fun q hq => (hh q hq).1)
+      (fun q hq hv => onOkB_sound cfg _ ((hh q hq).2.resolve_left (fun c => c hv))) m hm
+
+
 /-! ### the hypotheses are satisfiable, the conclusion is not trivial -/
 
 def sc (tag value : String) (line col : Nat) : Node := .mk .scalar tag value false line col []
